@@ -370,6 +370,9 @@ func (x *runner) runHistory(h *History, count bool) (fails []failure) {
 			line = fmt.Sprintf("add %s %d %d %s %s", hx, h.Blocks[op.B].Height, h.Blocks[op.B].TxCount, b01(op.Flag), vlib.Hex(datas[op.B]))
 			call(func() { db.BlockAdd(h.Blocks[op.B].Height, bl) })
 			allAdds[hs] = append(allAdds[hs], op.B)
+			if removedQ[hs] {
+				hit("add:same-hash-after-queued-invalid")
+			}
 			real = "ok"
 			if e := ref[hs]; e == nil {
 				ref[hs] = &refEnt{data: datas[op.B], trusted: op.Flag, spec: h.Blocks[op.B]}
@@ -442,6 +445,9 @@ func (x *runner) runHistory(h *History, count bool) (fails []failure) {
 			line = "invalid " + hx
 			call(func() { db.BlockInvalid(hs[:]) })
 			real = "ok"
+			if e := ref[hs]; e != nil && e.tainted {
+				hit("invalid:again-on-written-block")
+			}
 			if e := ref[hs]; e != nil && !panicked {
 				if e.flushed {
 					e.tainted = true
